@@ -299,6 +299,113 @@ def c19(tier):
             ph('parse-histories3-large-pool', 3, 'thorough', 7200), ph('parse-histories4', 4, 'quick', 14400)]
 
 
+def c06_sched():
+    """record each goroutine's program alone, let TLC (Sched.tla) produce release schedules, force them on the real library"""
+    def fn(pid, tier, sdir, harness, known):
+        r = subprocess.run([harness, 'sched-record'], capture_output=True, text=True, cwd=sdir)
+        if r.returncode != 0:
+            raise Infra('sched-record failed: ' + r.stderr[-500:])
+        pairs = json.loads(r.stdout)
+        runs, cases, distinct, viol, hits, counters, samples = [], 0, 0, [], [], {}, []
+        for pr in pairs:
+            i = pr['pair']
+            tl = lambda s: '<<' + ', '.join(str(x) for x in s) + '>>'
+            open(os.path.join(sdir, 'MC_Sched_%d.tla' % i), 'w').write(
+                '---- MODULE MC_Sched_%d ----\nEXTENDS Sched\nSeqsDef == <<%s>>\n====\n' % (i, ', '.join(tl(s) for s in pr['seqs'])))
+            exhaustive = tier == 'thorough' and sum(len(s) for s in pr['seqs']) <= 14
+            st = dict(module='MC_Sched_%d' % i, label='sched-pair%d' % i, props='C06', constants={'Seqs': '<-SeqsDef', 'PairId': i},
+                      invariants=['MutualExclusion', 'PendingHasHolder', 'NoDeadlock', 'Emit'])
+            ts, summ = vlib.run_gen(sdir, harness, st['module'], st['constants'], st['invariants'], 'C06',
+                                    1800 if exhaustive else (8 if tier == 'quick' else 120), st['label'],
+                                    simulate=None if exhaustive else 1000000, depth=60, crashprop='C06', workers=None if exhaustive else 4,
+                                    max_cases=0 if exhaustive else (400 if tier == 'quick' else 20000))
+            runs.append({k: ts[k] for k in ('label', 'cmd', 'generated', 'distinct', 'wall_s')})
+            cases += summ['cases']
+            distinct += summ['distinct_nontrivial']
+            for k, v in summ['counters'].items():
+                counters[k] = counters.get(k, 0) + v
+            samples += (summ.get('samples') or [])[:1]
+            for v in summ.get('violations') or []:
+                if v['property'] == pid:
+                    k = vlib.match_known(v, known)
+                    (hits if k else viol).append((k, v) if k else v)
+        counters['program-pairs'] = len(pairs)
+        return dict(tlc_runs=runs, cases=cases, distinct=distinct, counters=counters, samples=samples, violations=viol, known_hits=hits, exhaustive=False)
+    return dict(kind='custom', fn=fn)
+
+
+def c06_race(rounds_quick, rounds_thorough):
+    """free-running goroutines under the race detector; results compared with sequential results"""
+    def fn(pid, tier, sdir, harness, known):
+        rb = vlib.build(race=True)
+        out = os.path.join(sdir, 'race.json')
+        env = dict(os.environ, GORACE='halt_on_error=1 history_size=3')
+        viol = []
+        calls = 0
+        seeds = [vlib.SEED, vlib.SEED + 1] if tier == 'quick' else [vlib.SEED + i for i in range(6)]
+        for sd in seeds:
+            r = subprocess.run([rb, 'race', '-seed', str(sd), '-rounds', str(rounds_quick if tier == 'quick' else rounds_thorough), '-out', out],
+                               capture_output=True, text=True, cwd=sdir, env=env, timeout=3600)
+            if 'WARNING: DATA RACE' in r.stderr:
+                stacks = r.stderr[r.stderr.index('WARNING: DATA RACE'):][:6000]
+                if 'AsaiYusuke/jsonpath' not in stacks and '/repo/' not in stacks:
+                    raise Infra('data race outside the library (harness bug?):\n' + stacks[:1500])
+                viol.append({'property': 'C06', 'kind': 'data-race', 'path': '(see stacks)', 'document': '', 'signature': 'race',
+                             'detail': 'the race detector reports (seed %d):\n%s' % (sd, stacks), 'case': json.dumps({'fam': 'race', 'seed': sd})})
+                break
+            if r.returncode != 0:
+                if 'panic:' in r.stderr or 'fatal error' in r.stderr:
+                    viol.append({'property': 'C06', 'kind': 'crash-under-concurrency', 'path': '', 'document': '', 'signature': 'race',
+                                 'detail': r.stderr[-3000:], 'case': json.dumps({'fam': 'race', 'seed': sd})})
+                    break
+                raise Infra('race run failed rc=%d: %s' % (r.returncode, r.stderr[-800:]))
+            res = json.load(open(out))
+            calls += res['calls']
+            if res['mismatches']:
+                viol.append({'property': 'C06', 'kind': 'result-differs-under-concurrency', 'path': res['mismatches'][0][:200], 'document': '', 'signature': 'race',
+                             'detail': '\n'.join(res['mismatches'][:5]), 'case': json.dumps({'fam': 'race', 'seed': sd})})
+                break
+        hits = []
+        v2 = []
+        for v in viol:
+            k = vlib.match_known(v, known)
+            (hits if k else v2).append((k, v) if k else v)
+        return dict(tlc_runs=[], cases=calls, distinct=0, counters={'race-detector-calls': calls, 'race-runs': len(seeds)}, samples=[], violations=v2, known_hits=hits, exhaustive=False)
+    return dict(kind='custom', fn=fn)
+
+
+def c06_stress():
+    def fn(pid, tier, sdir, harness, known):
+        tr = os.path.join(sdir, 'stress.ndjson')
+        r = subprocess.run([harness, 'stress-trace', '-out', tr, '-max', '4000' if tier == 'quick' else '40000'], capture_output=True, text=True, cwd=sdir)
+        if r.returncode != 0:
+            raise Infra('stress-trace failed: ' + r.stderr[-500:])
+        n = sum(1 for _ in open(tr))
+        st = vlib.run_tlc_only(sdir, 'Trace_Conc', {'TraceFile': 'stress.ndjson'}, [], 900, 'trace-conc', workers=1)
+        if st['rc'] != 0 or st['error']:
+            raise Infra('Trace_Conc failed: %s' % (st['error'] or ''))
+        viol = []
+        if st['distinct'] != n + 1:
+            ev = open(tr).read().splitlines()
+            k = st['distinct'] - 1
+            ctx = ev[max(0, k - 6):k + 1]
+            viol.append({'property': 'C06', 'kind': 'hook-trace-rejected', 'path': 'event %d of %d' % (k + 1, n), 'document': '', 'signature': 'trace',
+                         'detail': 'the recorded hook trace is not a behaviour of Conc: event %s is not enabled (two holders of one buffer / overlapping parser sections). Preceding events: %s' % (ev[k] if k < len(ev) else '?', ' '.join(ctx)),
+                         'case': json.dumps({'fam': 'trace', 'events': ctx})})
+        return dict(tlc_runs=[{k: st[k] for k in ('label', 'cmd', 'generated', 'distinct', 'wall_s')}], cases=1, distinct=0,
+                    counters={'hook-events-validated': st['distinct'] - 1, 'hook-events-recorded': n}, samples=[], violations=viol, known_hits=[], exhaustive=False)
+    return dict(kind='custom', fn=fn)
+
+
+def c06(tier):
+    models = [conc_model('2a', 2, 'P2a'), conc_model('2b', 2, 'P2b'), conc_model('2c', 2, 'P2c'), conc_model('3', 3, 'P3')]
+    if tier == 'quick':
+        return models + [c06_sched(), c06_race(6, 40), c06_stress()]
+    muts = conc_mutants([('UseMutex', 2, 'P2b', 'MutualExclusion'), ('ResetParser', 1, 'P1', 'ResidueFree'), ('PoolPrivate', 2, 'P2c', 'BufferPrivacy'),
+                         ('CopyOut', 1, 'P1', 'ResultsPrivate'), ('TreeReadOnly', 2, 'P2c', 'NoRace')])
+    return models + [muts, c06_sched(), c06_race(6, 40), c06_stress()]
+
+
 def c02(tier):
     cn = dict(kind='tlc', module='CmpNormalize', label='cmp-normalize-terminates', constants=dict(AsCoded=False),
               invariants=['BuiltRight', 'AtMostOneSwap'], properties=['Terminates'], timeout=120, workers=1)
@@ -318,6 +425,7 @@ def c17(tier):
 
 
 CHECKS = {
+    'C06': dict(stages=c06, level='model_checking'),
     'C19': dict(stages=c19, level='model_checking'),
     'C05': dict(stages=c05, level='model_checking'),
     'C09': dict(stages=c09, level='model_checking'),
